@@ -101,4 +101,94 @@ void h_emit_split(void)
   }
 }
 
+/* ------------------------------------------------------------------------------------------------
+ * h_emit_step: ONE emit() call from an ARBITRARY resume state (all six), arbitrary remaining input
+ * count and a small output buffer, against a resumable reference un-RLE.  The six states are
+ * interpreted as (pending byte?, previous byte, its run length so far, copies still to expand):
+ *   0: nothing pending, fresh     5: byte c fetched, fresh
+ *   k=1..3: byte c fetched; d was written k times in a row      4: c copies of d still to write
+ * Checked: bytes written, verdict, CRC, and that the state left behind MEANS the same as the
+ * reference's (so any sequence of buffers decodes the same: inductive version of h_emit_split).
+ */
+#ifndef MB
+#define MB 3                   /* output buffer sizes 1..MB */
+#endif
+struct ust { unsigned mode; unsigned c, d, k, rem; uint32_t p, a, crc; };   /* mode 0 fresh/no pending, 1 pending, 2 expanding */
+
+void h_emit_step(void)
+{
+  LOAD_INPUTS();
+  static uint32_t tt[NB];
+  struct decoder_state ds;
+  uint8_t got[MB + 1], want[MB + 1];
+  unsigned i, n = NB, st = IN.n % 6u, m0 = IN.m1, wn = 0;
+  struct ust R;
+  int want_rv = -1;
+  ASSUME(m0 >= 1 && m0 <= MB);
+  for (i = 0; i < NB; i++) { ASSUME(IN.link[i] < n && IN.byte[i] <= VMAX); tt[i] = (IN.link[i] << 8) | IN.byte[i]; }
+  ASSUME(IN.start < n && IN.m2 <= NB);
+  /* arbitrary resume state */
+  memset(&ds, 0, sizeof ds);
+  ds.tt = tt; ds.block_size = n;
+  ds.rle_state = (int)st; ds.rle_index = tt[IN.start]; ds.rle_avail = IN.m2; ds.rle_crc = 0x12345678u;
+  ds.rle_char = (uint8_t)(IN.byte[0] ^ 0); ds.rle_prev = (uint8_t)IN.byte[1];
+  ASSUME(st != 4 || ds.rle_char <= VMAX);
+  /* its meaning */
+  R.p = ds.rle_index; R.a = ds.rle_avail; R.crc = ds.rle_crc; R.c = ds.rle_char; R.d = ds.rle_prev; R.rem = 0;
+  if (st == 0) { R.mode = 0; R.k = 0; }
+  else if (st == 5) { R.mode = 1; R.k = 0; }
+  else if (st == 4) { R.mode = 2; R.rem = ds.rle_char; R.k = 0; }
+  else { R.mode = 1; R.k = st; }
+  /* reference: resumable un-RLE, at most MB bytes of output */
+  {
+    unsigned m = m0, guard;
+    for (guard = 0; guard < 3 * MB + 4 && want_rv < 0; guard++) {
+      if (R.mode == 2) {
+        if (R.rem > 0) { if (m == 0) { want_rv = MORE; break; } want[wn++] = (uint8_t)R.d; R.crc = ref_crc(R.crc, R.d); R.rem--; m--; continue; }
+        R.mode = 0; R.k = 0;
+      }
+      if (R.mode == 0) {
+        if (R.a == 0) { want_rv = OK; break; }
+        R.a--; R.p = tt[R.p >> 8]; R.c = R.p & 0xFF; R.mode = 1;
+      }
+      if (m == 0) { want_rv = MORE; break; }
+      want[wn++] = (uint8_t)R.c; R.crc = ref_crc(R.crc, R.c); m--;
+      if (R.k > 0 && R.c == R.d) R.k++; else { R.d = R.c; R.k = 1; }
+      R.mode = 0;
+      if (R.k == 4) {
+        if (R.a == 0) { want_rv = ERR_RUNLEN; break; }
+        R.a--; R.p = tt[R.p >> 8]; R.rem = R.p & 0xFF; R.mode = 2; R.k = 0;
+      }
+    }
+    ASSUME(want_rv >= 0);
+  }
+
+  size_t left = m0;
+  int rv = emit(&ds, got, &left);
+  unsigned gn = m0 - (unsigned)left;
+
+  if (want_rv == MORE && R.mode == 1 && R.k == 0) WITNESS("suspended_with_fresh_byte_pending");
+  if (want_rv == MORE && R.mode == 2) WITNESS("suspended_inside_run_expansion");
+  if (want_rv == MORE && R.mode == 1 && R.k == 3) WITNESS("suspended_before_fourth_equal_byte");
+  if (want_rv == OK) WITNESS("block_finished");
+  if (want_rv == ERR_RUNLEN) WITNESS("missing_run_length");
+
+  PROP(rv == want_rv, "verdict of one emit() call equals the reference from the same resume state");
+  if (want_rv != ERR_RUNLEN) {
+    PROP(gn == wn, "bytes written by one emit() call equal the reference");
+    for (i = 0; i < MB; i++) PROP(i >= wn || got[i] == want[i], "byte values written by one emit() call equal the reference");
+  }
+  if (want_rv == OK) PROP(ds.crc == (R.crc ^ 0xFFFFFFFFu), "CRC handed out at the end of a block covers exactly the emitted bytes");
+  if (want_rv == MORE) {
+    /* the state left behind must MEAN the reference's state */
+    unsigned s2 = (unsigned)ds.rle_state;
+    PROP(s2 <= 5, "resume state is one of the six");
+    PROP(ds.rle_avail == R.a && ds.rle_crc == R.crc, "remaining input count and CRC carried over");
+    if (R.mode == 2) PROP(s2 == 4 && ds.rle_char == R.rem && ds.rle_prev == R.d, "suspended inside a run expansion: copies left and run byte carried over");
+    else if (R.mode == 1 && R.k == 0) PROP(s2 == 5 && ds.rle_char == R.c && ds.rle_index == R.p, "suspended with a fetched byte that starts a new run");
+    else if (R.mode == 1) PROP(s2 == R.k && ds.rle_char == R.c && ds.rle_prev == R.d && ds.rle_index == R.p, "suspended with a fetched byte after a run of k equal bytes: k, both bytes and the list position carried over");
+    else PROP((s2 == 0 && ds.rle_index == R.p) , "suspended with nothing pending");
+  }
+}
+
 HARNESS_MAIN(REPLAY_ENTRY)
